@@ -151,7 +151,9 @@ def known_id(case, r, det=None):
         if 0.0 < m0 < 1e-20:
             return "F23"          # parallel to the normal up to rounding, exact `> 0.0` test (the float model divides by
                                   # the same 1e-33 and may differ: no model condition here)
-    if fn == "line_segment_to_circle" and agrees and r.get("on_line") is False:
+    # (for the root finder of the circle functions a tie between two equidistant roots is decided by 1e-16 noise: a
+    #  disagreement that the model itself shows under a 2-ulp perturbation ("unclear") is accepted there)
+    if fn == "line_segment_to_circle" and (agrees or r.get("_model_agrees") == "unclear") and r.get("on_line") is False:
         # F10: the clamp arm was taken (the segment end point next to the line's global minimiser is reported) AND the
         # closer pair that refutes the result sits at ANOTHER point of the segment (an interior local minimum of the line
         # function, or the other end): the defect is exactly that those candidates are never looked at
